@@ -19,7 +19,7 @@ import (
 // A probe installed as the first global middleware snapshots the context at
 // entry of every request.
 
-var kindNames = []string{"store", "errors", "abort", "status-write", "replace-resp", "replace-req", "set-handlers", "dynamic", "dynamic2", "notfound", "notallowed", "panic", "redispatch", "nested", "copy", "mutate-params", "dynamic3", "delegate", "hijack", "mutate-novar", "novar", "keep-copy", "panic-status", "mutate-query", "query", "render-fail", "render-ok", "hijack2", "notallowed3", "flush"}
+var kindNames = []string{"store", "errors", "abort", "status-write", "replace-resp", "replace-req", "set-handlers", "dynamic", "dynamic2", "notfound", "notallowed", "panic", "redispatch", "nested", "copy", "mutate-params", "dynamic3", "delegate", "hijack", "mutate-novar", "novar", "keep-copy", "panic-status", "mutate-query", "query", "render-fail", "render-ok", "hijack2", "notallowed3", "flush", "mutate-static", "static"}
 
 type kindReq struct {
 	method, path string
@@ -65,7 +65,14 @@ var kindReqs = map[string]kindReq{
 	"notallowed3": {"DELETE", "/tri"},
 	// a streaming handler: writes, flushes, writes again
 	"flush": {"GET", "/fl"},
+	// a handler of a route WITHOUT variables that adds an entry to its parameter map (creating the map when it has
+	// none), and a plain request for the same route
+	"mutate-static": {"POST", "/ms"},
+	"static":        {"GET", "/ms"},
 }
+
+// kindParams: the parameters a request for the path must find in its context at entry (the variables of its route)
+var kindParams = map[string]string{"/d/7": "id=7", "/d/8/x": "id=8,sub=x", "/d/55": "id=55", "/m/9": "id=9", "/keep/5": "id=5", "/view/bad": "name=bad", "/view/good": "name=good"}
 
 // kindRenderer is the router's view renderer: it writes a heading, then fails for the view named "bad"
 type kindRenderer struct{}
@@ -292,6 +299,21 @@ func newKindRouter(cfg kindCfg) *kindRouter {
 			_ = conn.Close()
 		}
 	})
+	ms := func(c *rux.Context) {
+		seen := fmt.Sprint(len(c.Params)) + c.Param("tenant")
+		if c.Req.Method == "POST" {
+			if c.Params == nil {
+				c.Params = rux.Params{}
+			}
+			c.Params["tenant"] = "acme"
+		}
+		c.WriteString("ms:" + seen)
+	}
+	if cfg.NoGlobal {
+		r.Add("/ms", ms, "GET", "POST").Use(probe)
+	} else {
+		r.Add("/ms", ms, "GET", "POST")
+	}
 	get("/copy", func(c *rux.Context) {
 		cp := c.Copy()
 		cp.Set("in-copy", 1)
@@ -314,6 +336,10 @@ func (k *kindRouter) probe(c *rux.Context) string {
 		if now := k.describeKept(); now != k.keptWant {
 			fmt.Fprintf(&sb, "KEPT-COPY-CHANGED{was %s; now %s} ", k.keptWant, now)
 		}
+	}
+	if got, want := canonParams(c.Params), kindParams[c.Req.URL.Path]; got != want {
+		// (holds on every router of the process, so the twin cannot vouch for it: an absolute expectation)
+		fmt.Fprintf(&sb, "PARAMS-NOT-FROM-ROUTE{path %s: has %q at entry, its route yields %q} ", c.Req.URL.Path, got, want)
 	}
 	data := c.Data()
 	keys := make([]string, 0, len(data))
